@@ -247,8 +247,8 @@ def r3_batch(ctx):
         ok = any(l.kind == "agg" and l.detail.get("variant") == "Null" for l in lv)
         R.check(ok, "C08.R3", "append:refusal-id-null", "the batch refusal carries Id::Null", "the batch refusal does not carry Id::Null", where(e))
     rb = F.one(r"^jsonrpsee_types::error::reject_too_big_batch_response$")
-    codes = [op_const(a) for c in rb.calls for a in c.args if op_const(a) and op_const(a).get("name", "").endswith("TOO_BIG_BATCH_RESPONSE_CODE")]
-    R.check(bool(codes) and all(k.get("int") == "-32011" for k in codes), "C08.R3", "reject_too_big_batch_response:code", "reject_too_big_batch_response uses -32011", "reject_too_big_batch_response does not use TOO_BIG_BATCH_RESPONSE_CODE = -32011", "%s:%d" % (rb.file, rb.lo))
+    from .common import error_code_ints
+    R.check(error_code_ints(ctx, rb) == {"-32011"}, "C08.R3", "reject_too_big_batch_response:code", "reject_too_big_batch_response uses -32011", "reject_too_big_batch_response does not use TOO_BIG_BATCH_RESPONSE_CODE = -32011", "%s:%d" % (rb.file, rb.lo))
     # limit of the builder
     trf = ctx.tracer()
     nl = [c for c in F.all_calls(r"BatchResponseBuilder::new_with_limit$") if c.body.crate == SERVER]
